@@ -20,6 +20,11 @@ checks["C20"]=dict(
    note="Trusted: yaml.v3 naming rules as transcribed; invopop reflector naming (definition names matched case-insensitively). Does not decide `required`, semantic validation of reference strings, or two members set at once.",
    technique="typestate lint on decoder construction + union-dispatch exhaustiveness + Go-struct/JSON-Schema key-tree diff (go/types vs committed JSON)",
    design="§3.C20")
+checks["C05"]=dict(
+   text="Structural necessary conditions for references to keep resolving: visitor traversal completeness w.r.t. the IR type structure (every Type-bearing field, computed from go/types), write-coverage of every name-changing pass over all reference-bearing positions with one comparison rule and the same conditions as the rename, registration of created objects, closure/phase rules of the two object-removing passes, declaration-before-reference in the parsers.",
+   note="Trusted: go/types; the effects engine resolves visitor callbacks through the composite literal that builds the Visitor; the list of reference-bearing positions (Ref, ConstantReference, DiscriminatorMapping, EntryPoint) is frozen in c05.go. Does not decide that the rewritten name is right, nor composition of passes.",
+   technique="IR-structure vs traversal coverage diff (go/types) + interprocedural write-set analysis of passes + AST control-dependence rules",
+   design="§3.C05")
 pending = {}
 props = [json.loads(l) for l in open(os.path.join(here, "properties.jsonl"))]
 m = {
